@@ -26,10 +26,16 @@ FLOP_TAGS = ("Call", "CallWithKwargs", "Subscript", "Lookup", "Sum", "Product", 
              "If", "Min", "Max", "CommonSubexpression", "tuple", "list", "array")
 COUNT_EXCLUDED = ("tuple", "list", "array")
 
+# the option value as a caller would get it from a config file or the command line: an equal
+# string built at run time (a source literal is interned and 'is'-identical to the library's own)
+DESCEND = "_".join(("descend", "args"))
+assert DESCEND == "descend_args" and DESCEND is not "descend_args"   # noqa: F632
+
+
 FLAGS = [
     dict(include_subscripts=s, include_lookups=lk, include_calls=c, include_cses=cs,
          composite_leaves=cl)
-    for s in (True, False) for lk in (True, False) for c in (True, False, "descend_args")
+    for s in (True, False) for lk in (True, False) for c in (True, False, DESCEND)
     for cs in (True, False) for cl in (None, True, False)]
 
 
@@ -289,7 +295,8 @@ class C09(Check):
             "prefix), sum, power, conditional, slice, tuple}; plus sharing families (the same CSE "
             "twice, equal-but-not-identical subtrees); each x all 72 flag vectors x cached/uncached "
             "dependency mapper, the node counter and both flop counters; plus all length-3 "
-            "histories of 8 expressions on ONE analysis instance (plain and cached dependency "
+            "histories of 10 expressions (the caller adds an element to every set a plain analysis "
+            "returns; the include_calls option is an equal, non-interned string) on ONE analysis instance (plain and cached dependency "
             "mapper under 4 flag settings, flop counter), each result compared with a fresh "
             "analysis. Non-trivial = the tree "
             "contains a subscript, lookup, call or CSE, or a repeated subtree; distinct = distinct "
@@ -338,7 +345,9 @@ class C09(Check):
         x, y, z = V("x"), V("y"), V("z")
         cse = CSE(Sum(x, Prod(y, C(2))))
         return [Sum(x, y), Prod(x, z), x, Sum(cse, y), Prod(cse, z), Call(V("f"), Sum(x, y)),
-                Sub(V("arr"), Sum(x, C(1))), CSE(Sum(x, y), "p")]
+                Sub(V("arr"), Sum(x, C(1))), CSE(Sum(x, y), "p"),
+                # analyses whose whole result is the set made for one leaf
+                C(2), CSE(C(1))]
 
     def gen_histories(self):
         n = len(self.hist_pool())
@@ -347,7 +356,7 @@ class C09(Check):
                 yield ("hist", fi, hist)
 
     HIST_FLAGS = [dict(), dict(composite_leaves=False), dict(include_cses=True),
-                  dict(include_calls="descend_args", include_subscripts=False)]
+                  dict(include_calls=DESCEND, include_subscripts=False)]
 
     def check_history(self, r, fi, hist):
         from pymbolic.mapper.dependency import CachedDependencyMapper, DependencyMapper
@@ -363,7 +372,13 @@ class C09(Check):
                 got = m(build(pool[i]))
                 r.evals += 1
                 want = {sort_maps(w) for w in ref_dependencies(pool[i], full)}
-                if {sort_maps(to_spec(g)) for g in got} != want:
+                got_specs = {sort_maps(to_spec(g)) for g in got}
+                if cls is DependencyMapper and pool[i][0] != "CommonSubexpression":
+                    # the result of a non-memoizing analysis is the caller's own set: what the
+                    # caller does to it must not show up in any later analysis (a wrapper's set
+                    # is kept by the instance and handed out by reference, like a memo entry)
+                    got.add(("poison", step))
+                if got_specs != want:
                     return (f"history:{cls.__name__}", step,
                             f"flags {fl}: call {step} on {show(pool[i])} after "
                             f"{[show(pool[j]) for j in hist[:step]]} returned "
